@@ -305,6 +305,34 @@ impl Interface for Recorder {
     }
 }
 
+/// org.verif.env: the service's own view of its activation environment (C16).
+pub struct EnvIface;
+impl Interface for EnvIface {
+    fn get_description(&self) -> &'static str {
+        "interface org.verif.env\nmethod Report() -> (pid: int, env: [string]string, fd3_listening: bool, fd3_path: string)\n"
+    }
+    fn get_name(&self) -> &'static str {
+        "org.verif.env"
+    }
+    fn call_upgraded(&self, _c: &mut Call, _r: &mut dyn BufRead) -> varlink::Result<Vec<u8>> {
+        Ok(Vec::new())
+    }
+    fn call(&self, call: &mut Call) -> varlink::Result<()> {
+        let mut env = serde_json::Map::new();
+        for k in ["LISTEN_FDS", "LISTEN_FDNAMES", "LISTEN_PID", "VARLINK_ADDRESS"] {
+            if let Ok(v) = std::env::var(k) {
+                env.insert(k.into(), json!(v));
+            }
+        }
+        // is fd 3 a listening socket?
+        let mut val: libc::c_int = 0;
+        let mut len = std::mem::size_of::<libc::c_int>() as libc::socklen_t;
+        let rc = unsafe { libc::getsockopt(3, libc::SOL_SOCKET, libc::SO_ACCEPTCONN, &mut val as *mut _ as *mut libc::c_void, &mut len) };
+        let path = std::fs::read_link("/proc/self/fd/3").map(|p| p.display().to_string()).unwrap_or_default();
+        call.reply_struct(Reply::parameters(Some(json!({"pid": std::process::id(), "env": env, "fd3_listening": rc == 0 && val != 0, "fd3_path": path}))))
+    }
+}
+
 pub struct SvcCfg {
     pub log: Option<Log>,
     pub up: UpMode,
@@ -323,4 +351,11 @@ pub fn standard_service(cfg: SvcCfg) -> VarlinkService {
     t.gate = cfg.gate;
     t.stream_delay_ms = cfg.stream_delay_ms;
     VarlinkService::new(VENDOR, PRODUCT, VERSION, URL, vec![Box::new(t), Box::new(gen::new(Box::new(GenImpl)))])
+}
+
+/// The standard service plus org.verif.env (only for the process-level C16/C18 services, so
+/// that GetInfo of the in-process checks is unchanged).
+pub fn process_service() -> VarlinkService {
+    let t = TIface::new(None, UpMode::Line);
+    VarlinkService::new(VENDOR, PRODUCT, VERSION, URL, vec![Box::new(t), Box::new(gen::new(Box::new(GenImpl))), Box::new(EnvIface)])
 }
